@@ -1,6 +1,7 @@
 import MaltModel.Cfg.AstToCfg
 import MaltModel.Cfg.Check
 import MaltModel.Proofs.C05Check
+import MaltModel.Proofs.C05Paths
 /-!
 # C05 — the control-flow graph contains every control path that can execute
 
@@ -72,6 +73,54 @@ theorem C05_stmt_edges (b : B) (s : Nat) (l : List NodeId) :
     obtain ⟨k, _, hk⟩ := h
     cases hk
     exact mem_stmtPrevOf _ _ _ _
+
+/-! ## Every walk is a path of the model's graph
+
+Full statement (kept as the goal; FALSE of the pinned code without the last hypothesis, see the counterexample below):
+
+  theorem C05_paths (fn g) : fnSupported fn → fnDistinctKeys fn → fnNoJumpInHandlerOfTryWithFinally fn →
+      rootGraph fn = some g → ∀ fuel ω, IsPath g (walkFn fuel fn ω)
+
+Proved so far by structural induction over statements (`Proofs/C05Paths.lean`: Lemma A = frame conditions of the builder
+for ALL statements including try/except/finally; Lemma B = "every required pair of the flow summary is an edge, every
+node control can be at is a leaf, every pending jump is registered in its target section" for the fragment below;
+Lemma C = the finished root graph passes `pathCheck`), composed with `walk_sound` (all fuels, all oracles):
+
+* step 1 (this theorem): functions without `try` — if/while/for (+else)/with/break/continue/return/uncaught raise/
+  nested def/class/lambda-bearing statements, arbitrarily nested, dead code included;
+* step 2 (handlers) and step 3 (`finally`: pending jumps threaded through guard sub-graphs) are NOT yet proved for the
+  model by induction; for those programs the same conclusion is established per graph by the verified checker
+  `C05_paths_checker` run on the implementation's real graph (and on the model's) on every run.
+
+`fnDistinctKeys`: the dictionaries of `GraphBuilder` are keyed by AST node objects; in the model the keys are the
+serialiser's preorder ids, which are pairwise distinct by construction (the driver re-checks it for every program). -/
+
+theorem C05_paths_partial (i : Nat) (name : String) (args : Expr) (body : List Stmt) (decs rets : List Expr) (g : Graph)
+    (hfrag : fnFrag1 (.functionDef i name args body decs rets false) = true)
+    (hkeys : fnDistinctKeys (.functionDef i name args body decs rets false) = true)
+    (hg : rootGraph (.functionDef i name args body decs rets false) = some g) (fuel : Nat) (ω : Oracle) :
+    IsPath g (walkFn fuel (.functionDef i name args body decs rets false) ω) := by
+  have hgb : g = (rootBuilder (.functionDef i name args body decs rets false)).1.build := by
+    simp only [rootGraph] at hg
+    split at hg
+    · cases hg
+    · exact (Option.some.inj hg).symm
+  subst hgb
+  exact pathCheck_sound i name args body decs rets false _ (pathCheck_build i name args body decs rets hfrag hkeys) fuel ω
+
+/-- `def f(a): while a: (if a: break; else: continue); x = a   else: return a` then `y = a` — nested jumps, loop-else,
+dead code: the hypotheses of `C05_paths_partial` hold and the graph exists. -/
+def exFn : Stmt :=
+  .functionDef 1 "f" (.arguments 2 [] [.arg 3 "a" []] [] [] [] [] [])
+    [.while_ 4 (.name 5 "a" .load)
+      [.if_ 6 (.name 7 "a" .load) [.break_ 8] [.continue_ 9],
+       .assign 10 [.name 11 "x" .store] (.name 12 "a" .load)]
+      [.ret 13 [.name 14 "a" .load]],
+     .assign 15 [.name 16 "y" .store] (.lambda 17 (.arguments 18 [] [] [] [] [] [] []) (.name 19 "a" .load))]
+    [] [] false
+
+example : fnFrag1 exFn = true ∧ fnDistinctKeys exFn = true ∧ (rootGraph exFn).isSome = true := by decide
+example : walkFn 20 exFn [1, 0, 1, 1] = ([2, 5, 7, 9, 5, 7, 8, 17, 15], .normal, []) := by decide
 
 /-! ## The known violation of the full statement on the pinned code
 
